@@ -395,6 +395,7 @@ SetupStep ==
   LET r == Setup[S.ph + 1] IN
   CASE r.op = "CreateTopic" -> CreateTopic(r.name)
     [] r.op = "CreateSub" -> CreateSub(r.c)
+    [] r.op = "Publish" -> Publish(r.topic, r.msgs)
 
 SeekTargets == IF S.now <= 8 THEN 0..(S.now + 1)
                ELSE {0, S.now + 1} \cup {S.now - k : k \in {0, 1, 2, 4, 7}}
@@ -430,6 +431,12 @@ OpNext(op) ==
     [] op = "Publish" -> \E nm \in TopicNames, b \in Batches : Publish(nm, b)
     [] op = "Pull" -> \E nm \in SubNames, k \in PullMaxes : Pull(nm, k)
     [] op = "PullWait" -> \E nm \in SubNames : PullWait(nm)
+    \* pull on the subscription of the history's latest pull (any, if none yet): lets one delivery
+    \* climb its attempt ladder (family "ladder")
+    [] op = "PullSame" ->
+         LET P == {i \in DOMAIN hist : hist[i].op = "Pull"} IN
+         IF P = {} THEN \E nm \in SubNames : Pull(nm, 10)
+         ELSE Pull(hist[SetMax(P)].sub, 10)
     [] op = "Ack" -> \E nm \in SubNames, q \in IdSeqs : Ack(nm, q)
     [] op = "ModAck" -> \E nm \in SubNames, q \in IdSeqs, x \in ModSecs : ModAck(nm, q, x)
     [] op = "Nack" -> \E q \in IdSeqs : Nack(q)
